@@ -60,6 +60,7 @@ class Other {
   std::string name() const { LOG("Other::name", name_); return name_; }
   int probe(Base *raw) const { LOG("Other::probe", raw->id_); return raw->id_; }
   Other twin() const { LOG("Other::twin", name_); return Other(*this); }
+  Other &me() { LOG("Other::me", name_); return *this; }
   static int Count() { LOG("Other::Count"); return 42; }
 };
 namespace ns {
